@@ -77,14 +77,17 @@ CHECKS: dict[str, dict] = {
     ),
     "C06": dict(
         technique="Terminal.tla in absolute line coordinates + TLC trace validation of the bytes real draw() "
-        "calls deliver (both APIs); DrawValidate.tla table replayed into the real draw()",
+        "calls deliver (both APIs); Draw.tla / DrawOld.tla draw programs vs the real operation log; "
+        "DrawValidate.tla table replayed into the real draw(); TermSizeEnv.tla: real get_terminal_size()/draw() in "
+        "48 process environments",
         text="Every token of the output of ~2000 real draw() calls (render size x padding/alignment x frames x "
         "loops x start row incl. forced scrolling x tty/non-tty x block/kitty/iterm2 x terminal identity) "
         "is folded through the terminal model by TLC with the clauses 'nothing outside the padded region', "
         "'frames never leave the first frame's rectangle', 'last frame shown, padding blank, cursor visible "
         "at column 0 of the line below, exactly the necessary scrolling'; the documented validation table "
-        "is enumerated by TLC and replayed (verdict class, nothing written before rejection).",
-        design_ref="DESIGN.md 3 C06",
+        "is enumerated by TLC and replayed (verdict class, nothing written before rejection); the terminal "
+        "size those decisions use is bound by arranging every environment of TermSizeEnv.tla for a real process.",
+        design_ref="DESIGN.md 3 C06, 8.2, 8.4",
     ),
     "C07": dict(
         category="fault_enumeration",
